@@ -52,12 +52,32 @@ func countTap(n *int64) opII {
 }
 
 // countTapItem also counts the values whose context derives from a source item.
-func countTapItem(n, item *int64) opII {
-	return ro.TapOnNextWithContext(func(ctx context.Context, _ int) {
+type c19Slot int
+
+// countTapItem sits right behind operator i inside its slot. It counts the values
+// leaving the operator and, among them, those whose context descends from a value
+// that ENTERED the operator through Next: it carries the mark the tap behind
+// operator i-1 attached (for the first operator: the source's per-item key). It
+// then attaches its own mark. The instrumentation seeds a fresh checkpoint on
+// every value that enters a stage, so exactly these values are owed a
+// processing-time observation; values an operator emits on its own (completion,
+// error or subscription path) carry no checkpoint - the listed finding.
+func countTapItem(i int, n, item *int64) opII {
+	return ro.MapWithContext(func(ctx context.Context, v int) (context.Context, int) {
 		atomic.AddInt64(n, 1)
-		if ctx != nil && ctx.Value(rt.ItemKey) != nil {
-			atomic.AddInt64(item, 1)
+		if ctx != nil {
+			var entered any
+			if i == 0 {
+				entered = ctx.Value(rt.ItemKey)
+			} else {
+				entered = ctx.Value(c19Slot(i - 1))
+			}
+			if entered != nil {
+				atomic.AddInt64(item, 1)
+			}
+			ctx = context.WithValue(ctx, c19Slot(i), true)
 		}
+		return ctx, v
 	})
 }
 
@@ -105,7 +125,7 @@ func c19Run(t rt.TB, c c19Case) {
 	for i, l := range c.Links {
 		row := cat.ByName(l.Op)
 		st := opII(cat.ChainStage(row.Build(l.Variant, l.P, env)))
-		slots[i] = ro.PipeOp2(st, countTapItem(&taps[i], &tapsItem[i]))
+		slots[i] = ro.PipeOp2(st, countTapItem(i, &taps[i], &tapsItem[i]))
 		plain[i] = opII(cat.ChainStage(row.Build(l.Variant, l.P, cat.NewEnv())))
 	}
 	src := rt.NewScript("src", rt.CtorUnsafeCtx, c.Script)
@@ -258,8 +278,8 @@ func c19Run(t rt.TB, c c19Case) {
 		for i := 0; i < n; i++ {
 			if got[fmt.Sprint(i)] != uint64(atomic.LoadInt64(&taps[i])) {
 				if got[fmt.Sprint(i)] == uint64(atomic.LoadInt64(&tapsItem[i])) {
-					fail("no-observation-for-values-not-derived-from-a-source-item", fmt.Sprintf("%s: operator_index %d has %d observations, %d values left that operator, %d of them with a context derived from a source item (values emitted on the completion / error / subscription path carry no checkpoint)", desc, i, got[fmt.Sprint(i)], taps[i], tapsItem[i]))
-					return
+					fail("no-observation-for-values-not-derived-from-a-source-item", fmt.Sprintf("%s: operator_index %d has %d observations, %d values left that operator, %d of them descending from a value that entered the operator (values emitted on the completion / error / subscription path carry no checkpoint)", desc, i, got[fmt.Sprint(i)], taps[i], tapsItem[i]))
+					continue // the listed finding concerns THIS operator only: the ones behind it are still owed their observations
 				}
 				fail("operator-processing-time-count", fmt.Sprintf("%s: operator_index %d has %d observations, %d values left that operator (all: %v vs taps %v)", desc, i, got[fmt.Sprint(i)], taps[i], got, taps))
 				return
